@@ -23,6 +23,7 @@ import NV.Model.Lockset
 import NV.Gen.Lockset
 import NV.Lemmas.LastMod
 import NV.Gen.LastMod
+import NV.Gen.ReadOnly
 namespace NV.C15
 open NV.Lockset
 
@@ -158,5 +159,17 @@ theorem gen_lastmod_update_atomic :
   decide
 
 end LastMod
+
+/-- **regenerated (configuration consulted per query)**: `(*Profiles).Get` and `(*Forwarders).Get` — called by every handler
+goroutine on objects that carry no lock — and everything they call inside package config write nothing that outlives the
+call: no assignment through the receiver, a parameter or a pointer derived from them, no `sync/atomic` store.  Functions
+without shared writes commute, so their answers under any interleaving are those of every sequential order. -/
+theorem gen_query_path_config_readonly :
+    (Gen.ReadOnly.table.all fun r => r.2.isEmpty) = true ∧
+    (Gen.ReadOnly.table.any fun r => r.1 == "Profiles.Get") = true ∧
+    (Gen.ReadOnly.table.any fun r => r.1 == "Forwarders.Get") = true ∧
+    (Gen.ReadOnly.table.any fun r => r.1 == "profile.Match") = true ∧
+    (Gen.ReadOnly.table.any fun r => r.1 == "Resolver.Match") = true := by
+  decide
 
 end NV.C15
